@@ -136,7 +136,11 @@ def run(rep, drv):
 					if len(flat) != len(want) or any(not close(a, b, 1e-12) for a, b in zip(flat, want)):
 						errs.append('sampler %s called with %s, the declared distribution needs %s' % (prim['name'], flat, want))
 			# declared support
-			dist = ds.demand_distribution if ty not in ('D',) else None
+			try:
+				dist = ds.demand_distribution if ty not in ('D',) else None
+			except Exception as e:
+				dist = None
+				errs.append('demand_distribution raised %s (%s)' % (err_enum(e), str(e)[:100]))
 			if dist is not None and not isinstance(d, str) and not rnd:
 				lo_s, hi_s = dist.support()
 				if not (lo_s - 1e-12 <= d <= hi_s + 1e-12) and ty != 'N':
